@@ -23,7 +23,7 @@ RULE = (
 )
 REAL = ["place_objects", "run_fdtd (checkpointed loop)", "UniformPlaneSource / GaussianPlaneSource (TFSF injection)", "PoyntingFluxDetector", "PML"]
 STUB = ["tqdm disabled"]
-ASSUMPTIONS = ["float32 fields (x64 on for the host oracle); thresholds are the statement's own (1e-3, 0.1); measured head-room on the unchanged tree: 3e-7"]
+ASSUMPTIONS = ["float32 fields (x64 on for the host oracle); thresholds are the statement's own (1e-3, 0.1); measured on the unchanged tree: uniform source 3e-7; Gaussian spots of radius 0.3-0.6 wavelengths 0.03-0.18 (known finding C13-tight-gaussian-spot)"]
 TECHNIQUE = "deterministic simulation: quiescence/one-way-power invariant evaluated on the per-step flux history of the real loop"
 LEVEL_TEXT = "Seeded exploration over direction x polarisation x resolution x profile; statement thresholds used unchanged."
 LEVEL_NOTE = "float32; domains <= 40k cells, <= 320 steps; normal incidence only"
@@ -83,6 +83,23 @@ def generate(rng, tier, index):
         "materials": {"mode": "objects", "objects": [], "background": {"permittivity": eps}}, "sources": [src], "detectors": dets,
         "period_steps": float(period_steps), "axis": axis,
     }
+
+
+def _tight_gaussian_leak(spec, violation):
+    """Known finding: a tightly focused Gaussian spot (radius 0.3-0.65 medium wavelengths) leaks 10-25 % backward.
+
+    Anything else - a uniform plane source above 1e-3, a Gaussian beam sending >= 25 % backward (a wrong face sign or time
+    offset sends ~100 %), a wider beam, missing forward power - stays a VIOLATION.
+    """
+    src = spec["sources"][0]
+    if violation.get("monitor") != "backward_radiation" or src["kind"] != "gaussian_plane":
+        return False
+    eps = spec["materials"].get("background", {}).get("permittivity", 1.0)
+    r_rel = src["radius"] / (src["wavelength"] / np.sqrt(eps))
+    return 0.3 <= r_rel <= 0.65 and 0.1 <= violation["value"] < 0.25 and violation["forward"] > 0 and violation["backward"] < 0
+
+
+KNOWN_PREDICATES = {"tight_gaussian_spot_leaks_backward": _tight_gaussian_leak}
 
 
 def shrink(spec):
